@@ -521,6 +521,17 @@ def diagram_nonuniform_dims(ctx):
                 ctx.ensure("matching-paired-axes:accepted-and-equal-to-einsum", _same_tensor(got, ref, (1, 0)), witness=dict(matrix=(r, c), vector=n, edge="(w, M)", got=_shape_of(got)))
             else:
                 ctx.ensure("mismatching-paired-axes:TensorComputationError", isinstance(got, str) and got.startswith("TensorComputationError"), witness=dict(matrix=(r, c), vector=n, edge="(w, M)", got=_shape_of(got)))
+    # after a REJECTED edge the bookkeeping must stay consistent: whether the two indices count as consumed or are put back, an edge into the
+    # same target whose length matches neither the next nor the restored contravariant axis must be rejected as well (never paired with another axis)
+    X = mk((3, 4, 5), [0])  # X_i^{jk}: covariant axis of length 3, contravariant axes of lengths 4 and 5
+    s5, u3, u5, u4 = mk((5,), [0]), mk((3,), [0]), mk((5,), [0]), mk((4,), [0])
+    d = gb.TensorDiagram()
+    d.add_node(X)
+    first = _safe(lambda: d.add_edge(s5, X))
+    ctx.ensure("mismatching-paired-axes:TensorComputationError", isinstance(first, str) and first.startswith("TensorComputationError"), witness=dict(edge="(s5, X): first contravariant axis has length 4"))
+    second = _safe(lambda: d.add_edge(u3, X))
+    ctx.ensure("after-a-rejected-edge:bookkeeping-stays-consistent", isinstance(second, str) and second.startswith("TensorComputationError"),
+               witness=dict(edge="(u3, X) after the rejected (s5, X): neither axis 1 (4) nor axis 2 (5) has length 3", got=str(second)[:80]))
     # rank 3 with three different lengths: T_{ij}^k (4, 2, 3); second covariant axis after the first is used
     T = mk((4, 2, 3), [0, 1])
     a, b, c = mk((4,), []), mk((2,), []), mk((3,), [0])
